@@ -56,7 +56,9 @@ pub fn parse_case(f: &[&str]) -> Option<Case> {
 }
 
 /// Observation of one case: results of each invocation, sink log, probe log,
-/// number of report renderings that panicked.  After a failed invocation the
+/// number of report renderings that panicked, and the plain rendering of the
+/// source report of the first returned error (`report=`, `-` if there is none) and
+/// of the first error the sink received (`sinkreport=`).  After a failed invocation the
 /// next one starts again from the lexer the failed one was given.
 pub fn run_case(c: &Case) -> String {
     wire::guarded(|| run_case_inner(c))
@@ -76,11 +78,14 @@ fn run_case_inner(c: &Case) -> String {
     let source = SourceText::new(c.text.as_str()).with_column_metrics(m);
     let sink_log: Rc<RefCell<Vec<String>>> = Default::default();
     let render_panics: Rc<RefCell<usize>> = Default::default();
+    let sink_report: Rc<RefCell<Option<String>>> = Default::default();
     let env = Env { source, probes: Default::default(), render_panics: Rc::clone(&render_panics) };
     let mut ctx = if c.sink {
         let log = Rc::clone(&sink_log);
         let rp = Rc::clone(&render_panics);
+        let sr = Rc::clone(&sink_report);
         Context::new(Some(Box::new(move |e| {
+            let e = take_report(&mut sr.borrow_mut(), e, source);
             let (d, p) = describe(e, source);
             if p { *rp.borrow_mut() += 1; }
             log.borrow_mut().push(d);
@@ -94,6 +99,7 @@ fn run_case_inner(c: &Case) -> String {
     let mut parser = build(&c.g, &env);
     let mut lexer = initial_lexer(source, c.sc, c.filter);
     let mut results = Vec::new();
+    let mut report: Option<String> = None;
     for _ in 0..c.invocations.max(1) {
         match parser(lexer.clone(), ctx.clone()) {
             Ok(succ) => {
@@ -106,6 +112,9 @@ fn run_case_inner(c: &Case) -> String {
                 lexer = succ.lexer;
             }
             Err(e) => {
+                // the report of the first returned error is rendered from the error object the
+                // parser returned; its canonical description from a structural copy
+                let e = take_report(&mut report, e, source);
                 let (d, p) = describe(e, source);
                 if p { *render_panics.borrow_mut() += 1; }
                 results.push(format!("err:{}", d));
@@ -115,7 +124,9 @@ fn run_case_inner(c: &Case) -> String {
     let sink = sink_log.borrow().join(",");
     let probes = env.probes.borrow().join("~");
     let rp = *render_panics.borrow();
-    format!("{}|sink=[{}]|probes=[{}]|fmtpanics={}", results.join("&"), sink, probes, rp)
+    let sink_report = sink_report.borrow().clone();
+    format!("{}|sink=[{}]|probes=[{}]|fmtpanics={}|report={}|sinkreport={}", results.join("&"), sink, probes, rp,
+        report.unwrap_or_else(|| "-".to_string()), sink_report.unwrap_or_else(|| "-".to_string()))
 }
 
 ////////////////////////////////////////////////////////////////////////////////
